@@ -232,6 +232,9 @@ for _p in ('C01', 'C05', 'C07', 'C08', 'C09', 'C10', 'C11', 'C13', 'C15'):
 for _p in ('C07', 'C08', 'C09', 'C10', 'C11'):
     PROPS[_p]['gens'] = PROPS[_p]['gens'] + [dict(scenario='bigranges', n=dict(quick=600, thorough=10000))]
     PROPS[_p]['rule'] += '; + seeded pairs in which one or both operands have 8-24 alternatives over a wider pool of versions'
+for _p in ('C07', 'C08', 'C09', 'C10', 'C11'):
+    PROPS[_p]['gens'] = PROPS[_p]['gens'] + [dict(scenario='hugeranges', n=dict(quick=24, thorough=96), spread=True)]
+    PROPS[_p]['rule'] += '; + a few seeded pairs with 33-100 alternatives per operand (disjoint blocks in any order, or nested one-sided intervals whose result has |A| x |B| > 1024 alternatives)'
 for _p, _evs in (('C07', ['isect']), ('C08', ['diff']), ('C09', ['any']), ('C10', ['all']), ('C11', ['minv']), ('C13', ['print']), ('C15', ['ident']), ('C05', ['vparse']), ('C01', ['rparse'])):
     pass
 
